@@ -233,10 +233,10 @@ func (f *vfEtcd) vfApply(ops ...vfOp) {
 // vfBreak ends the stream: compact=false -> go-zero re-watches from the last load and
 // gets the retained events replayed; compact=true -> the re-watch is answered
 // "compacted" and go-zero loads a snapshot.
-func (f *vfEtcd) vfBreak(compact bool) (gets, watches int) {
+func (f *vfEtcd) vfBreak(compact bool) (watches int) {
 	f.mu.Lock()
 	defer f.mu.Unlock()
-	gets, watches = f.gets, f.watches+1
+	watches = f.watches + 1
 	if compact {
 		for f.loadRev+1 >= f.rev {
 			f.rev++
@@ -250,7 +250,6 @@ func (f *vfEtcd) vfBreak(compact bool) (gets, watches int) {
 			}
 		}
 		f.log = keep
-		gets, watches = f.gets+1, f.watches+2
 	}
 	if f.cur != nil && !f.cur.dead {
 		f.cur.dead = true
@@ -265,6 +264,26 @@ func (f *vfEtcd) vfWaitCalls(gets, watches int) bool {
 	for {
 		f.mu.Lock()
 		ok := f.gets >= gets && f.watches >= watches
+		f.mu.Unlock()
+		if ok {
+			return true
+		}
+		select {
+		case <-f.note:
+		case <-t.C:
+			return false
+		}
+	}
+}
+
+// vfWaitLive waits until go-zero has re-established a watch that is being served
+// (not answered "compacted"): its recovery, whatever it consisted of, is then over.
+func (f *vfEtcd) vfWaitLive(watches int) bool {
+	t := time.NewTimer(vfWatchdog)
+	defer t.Stop()
+	for {
+		f.mu.Lock()
+		ok := f.watches >= watches && f.cur != nil && !f.cur.dead
 		f.mu.Unlock()
 		if ok {
 			return true
@@ -541,8 +560,8 @@ func vfResolverHistory(c *kit.Case) {
 				}
 			}
 			compact := r.Bool()
-			g, w := f.vfBreak(compact)
-			if !f.vfWaitCalls(g, w) {
+			w := f.vfBreak(compact)
+			if !f.vfWaitLive(w) {
 				c.Inconclusive("watchdog: watch not re-established")
 				return
 			}
